@@ -169,10 +169,11 @@ def run(tier, seed):
         """seeded choice of configurations for one request: k_fast non-jax ones (+ one jax configuration when asked)"""
         pf = [c for c in pool_fast if supported(c, t) and c != BASE]
         pj = [c for c in pool_jax if supported(c, t)]
-        if k_fast == 1 and pf:
-            out = rng.choices(pf, weights=[W[c[1]] for c in pf], k=1)
-        else:
-            out = rng.sample(pf, min(k_fast, len(pf)))
+        out = []
+        while pf and len(out) < k_fast:                    # weighted sample without replacement
+            c = rng.choices(pf, weights=[W[x[1]] for x in pf], k=1)[0]
+            out.append(c)
+            pf.remove(c)
         if pj and use_jax:
             want = DEVICES[jrot[0] % len(DEVICES)]         # rotate over the devices so that each one is seen through jax
             jrot[0] += 1
